@@ -12,11 +12,12 @@ def main(tier: str) -> int:
                      "nunavut.lang.cpp.Language._validate_language_options", "nunavut.lang.LanguageContextBuilder.create",
                      "nunavut.lang.LanguageContextBuilder.set_target_language_configuration_override",
                      "nunavut.lang.LanguageContextBuilder.add_config_files", "nunavut.lang._config.LanguageConfig.update_from_yaml_file",
-                     "nunavut.lang._language.Language.get_option"]
+                     "nunavut.lang._language.Language.get_option", "nunavut.cli._make_parser (its defaults)",
+                     "nunavut.cli.runners.ArgparseRunner._create_language_context"]
     M = "h_C13"
     T = 300 if tier == "quick" else 2400
     names = ["merge_ref3", "sources_unmodified3", "result_independent_of_later_source_edits", "getters_never_default",
-             "shorthand_group", "builder_isolation", "config_file_order_ignores_hash_order"]
+             "shorthand_group", "builder_isolation", "config_file_order_ignores_hash_order", "cli_defaults_never_displace_file_values"]
     if tier != "quick":
         names.append("merge_ref2k")
     conds = [Cond(M, f, T, 60) for f in names if f != "shorthand_group"]
@@ -27,11 +28,12 @@ def main(tier: str) -> int:
     rep.bounds = dict(sources="<= 3 documents over 1 key (thorough: also 2 keys x 2 documents)", depth="<= 3",
                       value_kinds="absent | explicit int | DefaultValue(int) | map{x: explicit | default | map{y: int}}",
                       leaf_ints="unbounded symbolic", shorthand="5 std values x 256 explicit-option subsets",
-                      builder_isolation="override values 0..3 x 0..3")
+                      builder_isolation="override values 0..3 x 0..3",
+                      cli="file endianness absent|little|big x flag absent|little|big x file/flag asserts (real argparse parser and runner)")
     rep.assumptions = ["documents drawn from the stated grammar only; wider/deeper maps are outside the bound",
                        "a map value counts as explicit (the code and docstring agree)",
                        "builder isolation is demanded across *different* builders only (documented), not for re-use of one builder"]
-    rep.not_covered = ["YAML text parsing of override files (the parsed documents are symbolic; the built-in properties.yaml is parsed for real)", "more than 3 sources / 2 keys / depth 3", "CLI argument plumbing into the builder"]
+    rep.not_covered = ["YAML text parsing of override files (the parsed documents are symbolic; the built-in properties.yaml is parsed for real)", "more than 3 sources / 2 keys / depth 3", "CLI options other than --target-endianness / --enable-serialization-asserts / --configuration (the real parser's defaults apply to the rest)"]
     rep.extra["explanation"] = ("CrossHair/z3 symbolic execution of deep_update and the config accessors over symbolic document shapes "
                                 "and leaf values, compared with a reference merge over immutable snapshots; aliasing checked by "
                                 "snapshotting sources before/after and after a further merge into the result")
